@@ -27,6 +27,15 @@ pub fn start(project: LspProject) -> Result<(), String> {
     result
 }
 
+/// Entry point for a simulator that owns both ends of the connection.
+#[cfg(feature = "verif")]
+pub fn verif_start_with_connection(
+    connection: Connection,
+    project: LspProject,
+) -> Result<(), String> {
+    start_with_connection(connection, project)
+}
+
 /// Start the LSP server using the connection for communication.
 fn start_with_connection(connection: Connection, project: LspProject) -> Result<(), String> {
     // Declare what capabilities this server supports
